@@ -10,7 +10,7 @@ Open Scope Z_scope.
 Definition wpc_n (p : wpc) : option Z :=
   match p with
   | WWs1 n | WWs2 n | WWs3 n | WWs4 n => Some n
-  | WHw1 (SWr n) | WHwF (SWr n) | WHwEP (SWr n) | WHwEW (SWr n) | WHwEPk (SWr n) _ | WHwEN (SWr n)
+  | WHw1 (SWr n) | WHwC (SWr n) | WHwF (SWr n) | WHwEP (SWr n) | WHwEW (SWr n) | WHwEPk (SWr n) _ | WHwEN (SWr n)
   | WHwL1 (SWr n) | WHwL2 (SWr n) | WHwLP (SWr n) | WHwLW (SWr n) | WHwLPk (SWr n) | WHwLN (SWr n) => Some n
   | _ => None
   end.
